@@ -35,7 +35,7 @@ CLAIMED["C02"] = dict(
   ref="4-C02")
 CLAIMED["C12"] = dict(
   text="Bounded symbolic verification (SMT over go/ssa): every implicit Go panic (index/slice bounds, nil dereference, failed type assertion, division by zero) in codecs.PacketFlags, RewritePacket, Keyframe, KeyframeDimensions and in the pion RTP/VP8/VP9 Unmarshal code they call is an assertion decided by the solver for EVERY byte string up to the bound under every codec name, and for the readLoop path (pion Unmarshal -> Keyframe -> PacketFlags).",
-  note="Bounds: buffers of 0..20/24/12/18 bytes (thorough 40/48/24/32) for flags/rewrite/keyframe/readpath, 7 codec strings. Outside: longer packets (AV1/H.264 aggregation loops grow with length), the signalling (handleClientMessage) and HTTP surfaces of this property (see not-encoded list in DESIGN 4-C12), sdp/sdpfrag/JSON/websocket decoding in libraries. Trusted: go/ssa, gosmt, z3/cvc5.",
+  note="Bounds: buffers of 0..20/24/12/18 bytes (thorough 40/48/24/32) for flags/rewrite/keyframe/readpath, 7 codec strings; plus: the C11 signalling matrix with the panic checks on (57 message variants x 5 membership states x roles), draining of the action queue through handleAction in every membership state, and the HTTP string kernels (splitPath, parseGroupName, scanETag, etagMatch) on all strings up to 6 (9) bytes. Outside: longer packets (AV1/H.264 aggregation loops grow with length), the API/WHIP/static HTTP handlers themselves, sdp/sdpfrag/JSON/websocket decoding in libraries. Trusted: go/ssa, gosmt, z3/cvc5.",
   technique="bounded symbolic execution of go/ssa with SMT-decided panic checks, counterexamples replayed natively with recover",
   ref="4-C12")
 
@@ -76,6 +76,17 @@ CLAIMED["C14"] = dict(
   note="Bounds: 0..2 (thorough 3) members. NOT encoded: rtpconn's pushClientAction group-name filter, the permission/data change broadcasts (permissionsChangedAction, setdata) and the order in which queued actions are drained (the schedules part of the property) - these need the rtpconn client loop with its websocket writer. Trusted: go/ssa, gosmt, z3/cvc5, the Add/GetPermission models.",
   technique="inductive-step symbolic execution of go/ssa with SMT, ghost event logs in fake clients",
   ref="4-C14")
+
+CLAIMED["C11"] = dict(
+  text="Symbolic execution (SMT over go/ssa) of the REAL rtpconn.handleClientMessage with the membership state produced by REAL joins/leaves (handleClientMessage -> group.AddClient -> Description.GetPermission with plaintext passwords): one message out of 57 variants (every type and kind; present, absent and unknown destinations and ids; well- and ill-typed values) from a client in each of 5 membership states (never joined, member, join refused by a locked group, left, redirected) holding the rights of each role x recording/unrestricted-token flags. Every privileged effect is an effect stub or an observable state change and is asserted to have happened only for a current member holding the required permission: publish (present), chat/caption forwarding and history, lock, clearchat, op/unop/present/unpresent/shutup/kick, identify, subgroups, setdata (op), record, token creation (token, own group), token edit/list (op and token, own group only); a non-member holds no permission; leave clears the rights.",
+  note="The quantified domain here is a finite vocabulary which the executor covers exhaustively (8631 work items); the solver decides the string comparisons and branch feasibility on each. NOT encoded: WHIP endpoints (webserver/whip.go: needs pion SDP/PeerConnection), enforcement 'from the moment the client has been notified' across goroutines, the closing of streams on unpresent (delUpConn needs pion). Function-level models: broadcast, gotOffer, diskwriter.New, token.Get/Update/List, group.descriptionUnchanged, ice.ICEConfiguration, group.GetConfiguration (natively intercepted by source-overlay hooks); concrete clock. Trusted: go/ssa, gosmt, z3/cvc5.",
+  technique="symbolic execution of go/ssa with SMT over an exhaustively enumerated finite message/state vocabulary, effect stubs with precondition assertions, counterexamples replayed natively",
+  ref="4-C11")
+CLAIMED["C15"] = dict(
+  text="Symbolic execution (SMT over go/ssa) of the REAL handleClientMessage chat/usermessage path for a member (real join) with the rights of any role and SYMBOLIC source, username and destination bytes: a claimed id or name other than the sender's own is a ProtocolError (which closes the connection) with no effect at all; a forwarded message carries the true id / name or nothing, is privileged exactly when the sender holds op, keeps dest/kind/noecho/value; broadcast goes to every member minus the sender on noecho, a directed message to exactly the named member; only broadcast chat enters the history (real AddToChatHistory).",
+  note="Bounds: source 0..1 bytes, username absent or 2 bytes, destination 0..1 bytes over all byte values; 2 members; 5 roles x flags. NOT encoded here: the 50-entry bound / age bound / ClearChatHistory selection of the history (group.AddToChatHistory, discardObsoleteHistory are executed but only for short histories) and the history replay on join - see DESIGN 4-C15 d. broadcast is a recording model (real one marshals JSON). Trusted: go/ssa, gosmt, z3/cvc5.",
+  technique="symbolic execution of go/ssa with SMT (symbolic message fields), counterexamples replayed natively",
+  ref="4-C15")
 
 NOT_APPLICABLE = {
 }
